@@ -393,11 +393,13 @@ _mtbl_decompress_zstd(
 	if (input_size > INT_MAX)
 		return (mtbl_res_failure);
 
-	*output_size = (size_t) ZSTD_getFrameContentSize(input, input_size);
-	if (*output_size <= 0)
+	unsigned long long content_size = ZSTD_getFrameContentSize(input, input_size);
+	if (content_size == ZSTD_CONTENTSIZE_ERROR ||
+	    content_size == ZSTD_CONTENTSIZE_UNKNOWN)
 		return (mtbl_res_failure);
 
-	*output = my_malloc(*output_size);
+	*output_size = (size_t) content_size;
+	*output = my_malloc(*output_size ? *output_size : 1);
 
 	ret = ZSTD_decompress(
 		*output,		/* dst */
